@@ -162,7 +162,10 @@ def judge(c, rec, Mismatch, case):
                 mech += ' (antimeridian segment)'
             raise Mismatch(mech, d2)
         # ---- path order -----------------------------------------------------------------------------
-        big = [cell for cell in order if shares[cell] > 4.0 / M + 2e-4]
+        # cells whose share is within what the coordinates determine at all (see
+        # crossing_noise, micro segments) may legitimately be missing from the code's answer
+        slack = cnoise + (min(0.3, 8 * 3e-9 / seg_len) if 0.0 < seg_len < 1e-2 else 0.0)
+        big = [cell for cell in order if shares[cell] > 4.0 / M + 2e-4 + slack]
         seq = [cell for cell in got_order if cell in set(big)]
         dedup = [x for i, x in enumerate(seq) if i == 0 or seq[i - 1] != x]
         bigd = [x for i, x in enumerate(big) if i == 0 or big[i - 1] != x]
